@@ -8,7 +8,7 @@ def c16_gen(rng, tier):
     reps = budget(tier, 4, 24)
     for rep in range(reps):
         for udp in ("plain", "tc", "silent", "garbage", "bigplain", "bigtc"):
-            for tcp in ("reply", "close", "silent", "garbage"):
+            for tcp in ("reply", "close", "silent", "garbage", "tc"):
                 name = gens.rand_name(rng)
                 if rng.random() < 0.4:
                     # a long name: the query is 256 octets or more (two-octet TCP length prefix with a non-zero high octet)
@@ -46,6 +46,8 @@ def c16_gen(rng, tier):
 def c16_oracle(line, res):
     if "res=TRUNCATED" in res:
         return "caller received the truncated UDP message"
+    if "TT-TC-CLEARED" in res:
+        return "the TCP leg's answer was truncated too; the caller received it with the TC flag cleared"
     if "res=NIL-NIL" in res:
         return "the exchange returned neither a message nor an error (the caller must receive the outcome of the TCP exchange)"
     if "BADID" in res:
